@@ -16,6 +16,7 @@ EXPLANATION = (
     "(R4) determinism: MechSet / MechTable / MechRecord / MechMap hold insertion-ordered containers and no clock or random source is reachable from the "
     "kernels (solve bodies) other than the functions that are random by name. Not decided: equality of snapshots (runtime); floating point reproducibility "
     "is assumed from determinism of the callee set."
+    ' (R5) in Interpreter::step every whole-plan solve() sits in the plan traversal nested inside the step-counter loop, in every branch.'
 )
 CRATES = X.FXN_CRATES
 NONDET = re.compile(r"^std::time::|^rand::|^rand_core::|^getrandom::|^std::env::|SystemTime|Instant::now|thread_rng|^std::process::id")
